@@ -109,7 +109,11 @@ def timed_segments(rng, sizes, timeout=None, coalesce_p=None):
     out = []
     for n in sizes:
         if out and rng.random() >= coalesce_p:
-            t = round(t + rng.choice((0.001, 0.01, 0.1, 1.0)) * max_gap, 6)
+            if timeout is None and rng.random() < 0.3:
+                # a blocking socket waits as long as it takes: pauses of any length are legal
+                t = round(t + rng.choice((0.6, 1.5, 5.0, 60.0)), 6)
+            else:
+                t = round(t + rng.choice((0.001, 0.01, 0.1, 1.0)) * max_gap, 6)
         out.append([t, n])
     return out
 
